@@ -196,7 +196,8 @@ func (p *Parser) parseComment() ast.Node {
 	isBlockComment := (p.curToken.Type() == token.BLOCKCOMMENT)
 	log.Debugf("parseComment: %#v", r)
 	if isBlockComment {
-		if !strings.HasSuffix(p.curToken.Literal(), "*/") {
+		// the closing */ must come after the opening /* : "/*/" is not a closed comment
+		if lit := p.curToken.Literal(); len(lit) < 4 || !strings.HasSuffix(lit, "*/") {
 			log.LogVf("parseComment: block comment not closed: %s", p.curToken.DebugString())
 			if p.l.EOLEOF().Type() == token.EOF { // file mode: the input is complete, it cannot be continued
 				errLine, lineNum := p.ErrorLine(true)
